@@ -190,6 +190,9 @@ func checkC10(c C10Case, r *Rec) *Violation {
 	rv, rerr := ref.Eval(c.Tree)
 
 	for mask := 0; mask < 16; mask++ {
+		if mask == int(hash64(src)%16) {
+			foreignActivity(int(hash64(src) % 1000)) // other configs declare other operators stateless, behind the same names
+		}
 		log := &Log{}
 		cc, _ := NewConfig(u, log, Build{Mask: mask, How: HowMapAll, Costs: c.Costs})
 		// (i) Compile succeeds whatever fails inside
